@@ -2,4 +2,7 @@
 //! in src/bin/<name>.rs (cargo discovers them); they record traces / operation logs from the
 //! real plonky2 code and replay specification-generated scenarios into it.
 #![allow(clippy::needless_range_loop, clippy::too_many_arguments, clippy::type_complexity)]
+pub mod cfgs;
+pub mod prog;
+pub mod refarith;
 pub mod util;
